@@ -23,6 +23,7 @@ type c02Node struct {
 	execVal  any
 	postGot  any
 	posts    int
+	maxFails int // > 0: at most this many failed attempts, then the attempt succeeds
 }
 
 func (n *c02Node) Prep(ctx context.Context, s *SharedStore) (any, error) { return n.prepTok, nil }
@@ -30,7 +31,7 @@ func (n *c02Node) Prep(ctx context.Context, s *SharedStore) (any, error) { retur
 func (n *c02Node) Exec(ctx context.Context, p any) (any, error) {
 	vAssert(n.okAt == 0, "no-attempt-after-success")
 	n.calls++
-	if vNondet[bool]("fail") {
+	if (n.maxFails == 0 || n.calls <= n.maxFails) && vNondet[bool]("fail") {
 		// an attempt may fail with any kind of error value; it is still just a failed attempt
 		n.lastErr = vFailure("exec")
 		vCover("attempt-error-forms")
@@ -123,4 +124,92 @@ func VH_C02_deadline() {
 		vAssert(n.calls == N && n.fb == 1, "exactly-N-attempts-then-fallback")
 	}
 	_ = err
+}
+
+// ANY budget >= 1 (the budget stays symbolic: no upper bound), failure scripts of at most F failed
+// attempts before the first success: attempts = min(k, N) for every N, including budgets far above
+// anything a concrete enumeration would try
+func VH_C02_anyBudget() {
+	F := vParam("F", 3)
+	N := vNondet[int]("N")
+	vAssume(N >= 1)
+	vUnwind(F + 3)
+	n := &c02Node{BaseNode: NewBaseNode(WithMaxRetries(N)), prepTok: &vError{id: 7}}
+	n.maxFails = F
+	n.fbMode = vChoice("fbMode", 2)
+	_, err := Run(vNewCtx(), n, NewSharedStore())
+	vLog("calls", n.calls)
+	vLog("fb", n.fb)
+	if N > F {
+		vCover("budget-above-every-script")
+		vAssert(n.okAt > 0, "a-success-inside-the-budget-is-reached")
+	}
+	if n.okAt > 0 {
+		vCover("success")
+		vAssert(n.calls == n.okAt && n.fb == 0 && err == nil && n.posts == 1, "stop-at-first-success")
+	} else {
+		vCover("all-failed")
+		vAssert(n.calls == N, "exactly-N-attempts")
+		vAssert(n.fb == 1, "fallback-exactly-once")
+	}
+}
+
+// a Flow is a node kind too: used as a node (directly, or nested in an outer flow) with its own
+// retry budget, one attempt = one walk of its graph; the leaf fails per script
+type c02Leaf struct {
+	calls, okAt, maxFails int
+	posts                 int
+}
+
+func (l *c02Leaf) Prep(ctx context.Context, s *SharedStore) (any, error) { return nil, nil }
+func (l *c02Leaf) Exec(ctx context.Context, p any) (any, error) {
+	l.calls++
+	if l.calls <= l.maxFails && vNondet[bool]("fail") {
+		return nil, vFailure("leaf")
+	}
+	if l.okAt == 0 {
+		l.okAt = l.calls
+	}
+	return nil, nil
+}
+func (l *c02Leaf) Post(ctx context.Context, s *SharedStore, p, e any) (Action, error) {
+	l.posts++
+	return "done", nil
+}
+
+func VH_C02_flowBudget() {
+	F := vParam("F", 2)
+	maxN := vParam("N", 3)
+	N := vNondet[int]("N")
+	vAssume(1 <= N && N <= maxN)
+	vUnwind(maxN + F + 3)
+	leaf := &c02Leaf{maxFails: F}
+	head := &vSimpleNode{act: "go"}
+	inner := NewFlow(head)
+	inner.Connect(head, "go", leaf)
+	WithMaxRetries(N)(inner.BaseNode)
+	var err error
+	if vNondet[bool]("nested") {
+		vCover("flow-nested-in-a-flow")
+		first := &vSimpleNode{act: "in"}
+		outer := NewFlow(first)
+		outer.Connect(first, "in", inner)
+		_, err = Run(vNewCtx(), outer, NewSharedStore())
+	} else {
+		vCover("flow-run-directly")
+		_, err = Run(vNewCtx(), inner, NewSharedStore())
+	}
+	vLog("calls", leaf.calls)
+	if leaf.okAt > 0 {
+		vCover("success")
+		if leaf.okAt > 1 {
+			vCover("success-after-retry")
+		}
+		vAssert(leaf.calls == leaf.okAt, "stop-at-first-success")
+		vAssert(err == nil, "a-success-inside-the-budget-succeeds")
+	} else {
+		vCover("all-failed")
+		vAssert(leaf.calls == N, "exactly-N-attempts")
+		vAssert(err != nil, "exhausted-budget-without-fallback-fails")
+	}
 }
